@@ -30,6 +30,8 @@ func TestC15bStoredValues(t *testing.T) {
 		h.Act("appStep")
 		h.appStep("first connect")
 		nRecords := 0
+		var fc faultCounters
+		slow := h.faultActions(rt, &fc)["slowSave"]
 		actions := map[string]func(*rapid.T){
 			"pub1": func(rt *rapid.T) { h.pub(1, rapid.Bool().Draw(rt, "retain")) },
 			"pub2": func(rt *rapid.T) { h.pub(2, rapid.Bool().Draw(rt, "retain")) },
@@ -48,7 +50,8 @@ func TestC15bStoredValues(t *testing.T) {
 				}
 				h.brokerSend(2, rapid.IntRange(0, 30).Draw(rt, "len"))
 			},
-			"appStep": func(rt *rapid.T) { h.Act("appStep"); h.appStep("appStep") },
+			"appStep":  func(rt *rapid.T) { h.Act("appStep"); h.appStep("appStep") },
+			"slowSave": slow,
 			"break": func(rt *rapid.T) {
 				c := h.Current()
 				if c == nil {
